@@ -28,6 +28,7 @@ import (
 
 	"rcproxy/core/pkg/logging"
 	"rcproxy/core/pkg/redis"
+	"rcproxy/core/pkg/verifhook"
 )
 
 const (
@@ -108,6 +109,7 @@ func (c *ClusterNodes) loopClusterNodes() {
 	for {
 		select {
 		case msg := <-EngineGlobal.clusterChan:
+			verifhook.Yield("cluster.recv")
 			// An unusable answer to the probe is skipped: it must not end this goroutine, otherwise no
 			// later topology change would ever be adopted.
 			if len(msg) < 3 {
@@ -148,9 +150,12 @@ func (c *ClusterNodes) updateClusterNodes(msg string) error {
 		return errors.Wrapf(err, "redis do cluster nodes error")
 	}
 
+	verifhook.Yield("cluster.parsed")
 	if c.isChanged(allNodes) {
 		c.setServer(allNodes)
+		verifhook.Yield("cluster.servers-set")
 		c.setReplicaset(allNodes)
+		verifhook.Yield("cluster.before-flag")
 		c.serverChanged = true
 	}
 
